@@ -241,7 +241,7 @@ _PRE = ['1 <= chunk <= 2 * 1024 ** 2', '0 <= size <= 3 * chunk', '-1 <= get_faul
 _S1 = ['%d <= s1 <= %d' % (a, a + 3) for a in range(0, 32, 4)] + ['32 <= s1']
 _S1W = ['%d <= s1 <= %d' % (a, a + 7) for a in range(0, 32, 8)] + ['32 <= s1']
 OBLIGATIONS = [
-    dict(id='C19.1', impl='protocol', params=_P, cases=[(1, 0), (1, 1)], cases_thorough=[(1, 0), (1, 1), (1, 2), (2, 0)],
+    dict(id='C19.1', impl='protocol', params=_P, cases=[(1, 0), (1, 1)], cases_thorough=[(1, 0), (1, 1), (1, 2)],
          pre=_PRE,
          splits=[['get_fault == -1', 'fs_fault == -1', 's2 == -1', 't2 == 0', r] for r in _S1] +
                 [['get_fault >= 0', 'fs_fault == -1', 's2 == -1', 't2 == 0', r] for r in
@@ -252,11 +252,19 @@ OBLIGATIONS = [
                          [['get_fault >= 0', 'fs_fault == -1', 's2 == -1', 't2 == 0', r] for r in _S1W] +
                          [['get_fault == -1', 'fs_fault >= 0', 's2 == -1', 't2 == 0', r] for r in _S1W],
          timeout=(170, 1800),
-         bounds='1 download (thorough: 2) of 1-3 jobs, 2 workers; statement-level interleaving with 1 (thorough 2) '
+         bounds='1 download (thorough: 2 in C19.1w) of 1-3 jobs, 2 workers; statement-level interleaving with 1 (thorough 2) '
                 'preemption at a symbolic step to a symbolic thread; one failing GetObject or file-system operation '
                 'at a symbolic index; user cancel as its own thread',
          encodes=['GetObjectSubmitter._do_run/_submit_*', 'GetObjectWorker._do_run/_run_get_object_job/'
                   '_finalize_download/_do_file_rename/_do_get_object/_write_to_file', 'TransferMonitor', 'TransferState'],
+         assumptions=['co-versions generated from the source', 'monitor calls atomic (manager proxy)', 'S1', 'S2']),
+    dict(id='C19.1w', impl='protocol', params=_P, cases=[(2, 0)], tier='thorough', pre=_PRE,
+         splits=[['get_fault == -1', 'fs_fault == -1', 's2 == -1', 't2 == 0', r] for r in _S1W] +
+                [['get_fault >= 0', 'fs_fault == -1', 's2 == -1', 't2 == 0', r] for r in _S1W],
+         timeout=(170, 1800),
+         bounds='2 downloads sharing the submitter and 2 workers; one preemption at a symbolic step to a symbolic '
+                'thread; optionally one failing GetObject at a symbolic index',
+         encodes=['GetObjectSubmitter._do_run', 'GetObjectWorker._do_run', 'TransferMonitor', 'TransferState'],
          assumptions=['co-versions generated from the source', 'monitor calls atomic (manager proxy)', 'S1', 'S2']),
     dict(id='C19.3', impl='facade_exit', params='kbd: bool, started: bool', pre=[], timeout=(60, 300),
          bounds='all 4 combinations', encodes=['ProcessPoolDownloader.__exit__', '_shutdown', '_shutdown_submitter',
